@@ -184,7 +184,24 @@ func zipCounts(zr *zip.Reader, from int) entryCounts {
 	return c
 }
 
+// c19Run wraps the case in seeded perturbation at the extraction hooks (entry start, entry extracted,
+// progress written) on every other case.
 func c19Run(c lib.Case, env *lib.Env) lib.Result {
+	if c.ID%2 == 0 {
+		return c19RunInner(c, env)
+	}
+	sc := lib.NewSched("perturb", lib.Mix(c.Seed, uint64(c.ID)))
+	sc.P = 0.2
+	lib.SetHook(sc)
+	res := c19RunInner(c, env)
+	lib.SetHook(nil)
+	res.Add("hook_events", int64(len(sc.Events())))
+	res.Add("cases_with_perturbed_hooks", 1)
+	res.SetAdd("interleaving_signatures", sc.Signature())
+	return res
+}
+
+func c19RunInner(c lib.Case, env *lib.Env) lib.Result {
 	var s c19Spec
 	lib.ReadSpec(c, &s)
 	res := lib.Result{NonTrivial: true}
@@ -217,6 +234,7 @@ func c19Run(c lib.Case, env *lib.Env) lib.Result {
 	}
 	arc := ab.Bytes()
 	res.Add("archives", 1)
+
 	out := filepath.Join(env.Scratch, "out")
 	settings := archiver.ExtractSettings{Consumer: lib.Quiet(), Concurrency: s.Workers}
 
